@@ -325,7 +325,7 @@ int main(int argc, char **argv) {
             else c.cfg[9] = *gx::bnd({1, 2, 3}, 1, 40, 1, 2);
             return c;
         });
-        ok = run_cases(a, ev, "c18-generated", a.n(12000, 120000), 100, gen, run);
+        ok = run_cases(a, ev, "c18-generated", a.n(80000, 400000), 100, gen, run);
     }
     ev.write(a.out);
     return ok ? 0 : 1;
